@@ -87,7 +87,7 @@ WithProg(c, p) == [c EXCEPT !.prog = p]
 \* processes in TLC's emission order, so the name changes between parses all the time
 ProgOfNull(nm) == CASE nm = "builtin" -> P_libast [] nm = "first" -> P_tsabil [] OTHER -> P_long
 Cfg(fam, n, regfam, nreg, nullmode, kinds, maxlen, alpha) ==
-    [fam |-> fam, n |-> n, regfam |-> regfam, nreg |-> nreg, names |-> <<>>, nullmode |-> nullmode, prog |-> P_libast, magic |-> <<>>,
+    [fam |-> fam, n |-> n, regfam |-> regfam, nreg |-> nreg, names |-> <<>>, nullmode |-> nullmode, prog |-> P_libast, magic |-> <<>>, env |-> [home |-> <<>>, vname |-> <<>>, vval |-> <<>>],
      kinds |-> kinds, maxlen |-> maxlen, alpha |-> alpha, content |-> <<>>]
 Fam(fam, n) == Cfg(fam, n, "AB", 0, "first", <<"ok">>, <<0>>, "none")
 RegModes == {<<"none", 0>>, <<"A", 0>>, <<"AB", 0>>, <<"many", 30>>}
